@@ -8,10 +8,15 @@ EXPLANATION = ("C17: (R1) the pairing rule (name of the current token, when its 
                "reuse, non-panicking slices); (R3) identifier classes decided over all ASCII code points and sampled "
                "non-ASCII ones against the Unicode tables' verdict, (R3b) strip_identifier's end offset is always a char "
                "boundary and the slice exclusive; (R4) panic-freedom."
-               " (R5) views are fresh and never reset in place; (R6) the line splitting get_line performs.")
+               " (R5) views are fresh and never reset in place; (R6) the line splitting get_line performs;"
+               " (R7) lookup_token hands out the element greatest_lower_bound selected together with the index it returned, and (R8) greatest_lower_bound pairs every element with its own index, so the walk-back's `idx - 1` is the preceding token.")
 NOT_DECIDED = "that the right declaration is found for all programs (heuristic by design)."
 
 RULES = {
+    # the walk-back starts from the looked-up token and steps to `idx - 1`: the index lookup_token stores must be the
+    # index of the token it returns (F13: the insertion index was stored on an inexact match)
+    "C17.R7": lambda ctx: __import__("rules.typesrules", fromlist=["x"]).key_agreement(ctx, "C17.R7"),
+    "C17.R8": lambda ctx: __import__("rules.typesrules", fromlist=["x"]).glb_shape(ctx, "C17.R8"),
     "C17.RG": lambda ctx: __import__("rules.foundations", fromlist=["x"]).no_global_state(ctx, "C17.RG"),
     # resolution reads the minified text through SourceView::get_line: the line splitting and the freshness of views
     "C17.R5": lambda ctx: __import__("rules.svrules", fromlist=["x"]).fresh_views(ctx, "C17.R5"),
